@@ -121,3 +121,109 @@ package atree
 //@        (forall k :: 0 <= k && k < len(as(slab, *MapMetaDataSlab).childrenHeaders) ==> as(slab, *MapMetaDataSlab).childrenHeaders[k] == old(as(slab, *MapMetaDataSlab).childrenHeaders)[k + len(m.childrenHeaders) - len(old(m.childrenHeaders))])
 //@   ensures[C09] m.header.slabID == old(m.header.slabID) && as(slab, *MapMetaDataSlab).header.slabID == old(as(slab, *MapMetaDataSlab).header.slabID)
 //@   modifies m.childrenHeaders, m.header, as(slab, *MapMetaDataSlab).childrenHeaders, as(slab, *MapMetaDataSlab).header, ghost.touched
+
+//@ # ---- MapDataSlab as seen by its parent (header-level contracts). Bodies delegate to the element lists; they are not yet
+//@ # verified at this level and are listed as trusted in evidence.
+
+//@ pred wfMDS(d *MapDataSlab) = d != nil && d.elements != nil && !d.inlined && d.extraData == nil && !d.anySize &&
+//@      d.header.size == 18 + elsSize(d.elements)
+
+//@ func (m *MapDataSlab) Split(storage) (left, right, err)  serves C02 C05 C06 C09
+//@   trusted "body delegates to elements.Split; not yet verified at slab level"
+//@   requires wfMDS(m) && storage != nil && m.header.size > maxThreshold
+//@   ensures err != nil ==> categorised(err)
+//@   ensures err == nil ==> left == m && is(right, *MapDataSlab) && fresh(right) && wfMDS(m) && wfMDS(as(right, *MapDataSlab)) &&
+//@        mhdrBand(m.header) && mhdrBand(as(right, *MapDataSlab).header) && m.header.firstKey == old(m.header.firstKey) &&
+//@        m.header.firstKey < as(right, *MapDataSlab).header.firstKey &&
+//@        m.header.slabID == old(m.header.slabID) && as(right, *MapDataSlab).header.slabID.address == old(m.header.slabID.address) &&
+//@        as(right, *MapDataSlab).header.slabID != SlabIDUndefined && sto[as(right, *MapDataSlab).header.slabID] == nil &&
+//@        as(right, *MapDataSlab).next == old(m.next) && m.next == as(right, *MapDataSlab).header.slabID
+//@   modifies m.elements, m.header, m.next, hkeyElements.*@inSub(m), singleElements.*@inSub(m), ghost.touched, alloc
+
+//@ func (m *MapDataSlab) Merge(slab) (err)  serves C02 C05 C06 C09
+//@   trusted "body delegates to elements.Merge; not yet verified at slab level"
+//@   requires is(slab, *MapDataSlab) && m != slab && wfMDS(m) && wfMDS(as(slab, *MapDataSlab))
+//@   ensures err != nil ==> categorised(err)
+//@   ensures err == nil ==> wfMDS(m) && m.header.size == old(m.header.size) + old(as(slab, *MapDataSlab).header.size) - 18 - 8 &&
+//@        m.header.slabID == old(m.header.slabID) && m.header.firstKey == old(m.header.firstKey) && m.next == old(as(slab, *MapDataSlab).next)
+//@   modifies m.elements, m.header, m.next, hkeyElements.*@inSub(m), singleElements.*@inSub(m), ghost.touched, alloc
+
+//@ ghost canLendLM : fn(d ref, size int) bool
+//@ ghost canLendRM : fn(d ref, size int) bool
+
+//@ func (m *MapDataSlab) CanLendToLeft(size) (r)  serves C05
+//@   trusted "body delegates to elements.CanLendToLeft; the witness is abstracted as canLendLM"
+//@   requires wfMDS(m)
+//@   ensures r == canLendLM(m, size)
+//@   ensures !r ==> m.header.size < minThreshold + size + maxInlineMapElementSize + 8
+//@   pure
+
+//@ func (m *MapDataSlab) CanLendToRight(size) (r)  serves C05
+//@   trusted "body delegates to elements.CanLendToRight; the witness is abstracted as canLendRM"
+//@   requires wfMDS(m)
+//@   ensures r == canLendRM(m, size)
+//@   ensures !r ==> m.header.size < minThreshold + size + maxInlineMapElementSize + 8
+//@   pure
+
+//@ func (m *MapDataSlab) LendToRight(slab) (err)  serves C02 C05 C06
+//@   trusted "body delegates to elements.LendToRight; not yet verified at slab level"
+//@   requires is(slab, *MapDataSlab) && m != slab && wfMDS(m) && wfMDS(as(slab, *MapDataSlab)) &&
+//@        as(slab, *MapDataSlab).header.size < minThreshold && canLendRM(m, minThreshold - as(slab, *MapDataSlab).header.size)
+//@   ensures err != nil ==> categorised(err)
+//@   ensures err == nil ==> wfMDS(m) && wfMDS(as(slab, *MapDataSlab)) && mhdrBand(m.header) && mhdrBand(as(slab, *MapDataSlab).header) &&
+//@        m.header.slabID == old(m.header.slabID) && as(slab, *MapDataSlab).header.slabID == old(as(slab, *MapDataSlab).header.slabID) &&
+//@        m.header.firstKey == old(m.header.firstKey)
+//@   modifies m.elements, m.header, as(slab, *MapDataSlab).elements, as(slab, *MapDataSlab).header, hkeyElements.*@inSub(m), hkeyElements.*@inSub(slab), ghost.touched, alloc
+
+//@ func (m *MapDataSlab) BorrowFromRight(slab) (err)  serves C02 C05 C06
+//@   trusted "body delegates to elements.BorrowFromRight; not yet verified at slab level"
+//@   requires is(slab, *MapDataSlab) && m != slab && wfMDS(m) && wfMDS(as(slab, *MapDataSlab)) &&
+//@        m.header.size < minThreshold && canLendLM(as(slab, *MapDataSlab), minThreshold - m.header.size)
+//@   ensures err != nil ==> categorised(err)
+//@   ensures err == nil ==> wfMDS(m) && wfMDS(as(slab, *MapDataSlab)) && mhdrBand(m.header) && mhdrBand(as(slab, *MapDataSlab).header) &&
+//@        m.header.slabID == old(m.header.slabID) && as(slab, *MapDataSlab).header.slabID == old(as(slab, *MapDataSlab).header.slabID)
+//@   modifies m.elements, m.header, as(slab, *MapDataSlab).elements, as(slab, *MapDataSlab).header, hkeyElements.*@inSub(m), hkeyElements.*@inSub(slab), ghost.touched, alloc
+
+//@ # ---- parent bookkeeping of a map index slab
+
+//@ pred mNodeWF(c MapSlab) = ite(is(c, *MapDataSlab), wfMDS(as(c, *MapDataSlab)), wfMM(as(c, *MapMetaDataSlab)) && as(c, *MapMetaDataSlab).extraData == nil)
+
+//@ func (m *MapMetaDataSlab) SplitChildSlab(storage, child, chi) (err)  serves C02 C03 C05 C06 C09
+//@   requires storage != nil && wfMM0(m) && mLinked(m) && 0 <= chi && chi < len(m.childrenHeaders)
+//@   requires isMapSlab(child) && child == sto[m.childrenHeaders[chi].slabID] && mNodeWF(child) && m.header.size + 18 <= 4294967295
+//@   requires mhdrOf(child).size > maxThreshold && (is(child, *MapMetaDataSlab) ==> mhdrOf(child).size <= maxThreshold + 18)
+//@   ensures err != nil ==> categorised(err)
+//@   ensures[C06] err == nil ==> wfMM0(m) && m.header.slabID == old(m.header.slabID) && m.header.size == old(m.header.size) + 18
+//@   ensures[C09] err == nil ==> sto[m.header.slabID] == m && mDistinct(m)
+//@   ensures[C09] err == nil ==> mAgree(m)
+//@   ensures[C02] err == nil ==> len(m.childrenHeaders) == len(old(m.childrenHeaders)) + 1 &&
+//@        (forall k :: 0 <= k && k < chi ==> m.childrenHeaders[k] == old(m.childrenHeaders)[k]) &&
+//@        (forall k :: chi + 1 < k && k < len(m.childrenHeaders) ==> m.childrenHeaders[k] == old(m.childrenHeaders)[k - 1]) &&
+//@        m.childrenHeaders[chi].firstKey == old(m.childrenHeaders)[chi].firstKey && m.childrenHeaders[chi].firstKey < m.childrenHeaders[chi + 1].firstKey
+//@   ensures[C05] err == nil ==> mhdrBand(m.childrenHeaders[chi]) && mhdrBand(m.childrenHeaders[chi + 1])
+//@   ensures[C02 C03] err == nil ==> has(stored, m) && has(stored, sto[m.childrenHeaders[chi].slabID]) && has(stored, sto[m.childrenHeaders[chi + 1].slabID])
+//@   ensures[C09] forall id SlabID :: old(sto[id]) != nil && id != old(m.header.slabID) && id != old(m.childrenHeaders)[chi].slabID ==> sto[id] == old(sto[id])
+//@   modifies m.childrenHeaders, m.header, ghost.sto, ghost.stored, ghost.touched, alloc,
+//@        as(child, *MapDataSlab).elements, as(child, *MapDataSlab).header, as(child, *MapDataSlab).next, hkeyElements.*@inSub(child), singleElements.*@inSub(child),
+//@        as(child, *MapMetaDataSlab).childrenHeaders, as(child, *MapMetaDataSlab).header
+
+//@ func (m *MapMetaDataSlab) rebalanceChildren(storage, l, r, li, ri, borrow) (err)  serves C02 C03 C05 C06 C09
+//@   requires storage != nil && wfMM0(m) && mLinked(m) && 0 <= li && ri == li + 1 && ri < len(m.childrenHeaders)
+//@   requires isMapSlab(l) && isMapSlab(r) && sameKindM(l, r) && l == sto[m.childrenHeaders[li].slabID] && r == sto[m.childrenHeaders[ri].slabID] && mNodeWF(l) && mNodeWF(r)
+//@   requires is(l, *MapMetaDataSlab) ==> as(l, *MapMetaDataSlab).childrenHeaders[len(as(l, *MapMetaDataSlab).childrenHeaders) - 1].firstKey < as(r, *MapMetaDataSlab).childrenHeaders[0].firstKey
+//@   requires borrow ==> mhdrOf(l).size < minThreshold && mhdrOf(r).size <= maxThreshold &&
+//@        ite(is(r, *MapDataSlab), canLendLM(r, minThreshold - mhdrOf(l).size), canLendMM(as(r, *MapMetaDataSlab), minThreshold - mhdrOf(l).size))
+//@   requires !borrow ==> mhdrOf(r).size < minThreshold && mhdrOf(l).size <= maxThreshold &&
+//@        ite(is(l, *MapDataSlab), canLendRM(l, minThreshold - mhdrOf(r).size), canLendMM(as(l, *MapMetaDataSlab), minThreshold - mhdrOf(r).size))
+//@   ensures err != nil ==> categorised(err)
+//@   ensures[C06] err == nil ==> wfMM0(m) && m.header.slabID == old(m.header.slabID) && m.header.size == old(m.header.size)
+//@   ensures[C02] err == nil ==> len(m.childrenHeaders) == len(old(m.childrenHeaders)) &&
+//@        (forall k :: 0 <= k && k < len(m.childrenHeaders) && k != li && k != ri ==> m.childrenHeaders[k] == old(m.childrenHeaders)[k])
+//@   ensures[C05] err == nil ==> mhdrBand(m.childrenHeaders[li]) && mhdrBand(m.childrenHeaders[ri])
+//@   ensures[C09] err == nil ==> sto[m.header.slabID] == m && mDistinct(m)
+//@   ensures[C09] err == nil ==> mAgree(m)
+//@   ensures[C02 C03] err == nil ==> has(stored, m) && has(stored, l) && has(stored, r)
+//@   ensures[C09] forall id SlabID :: id != old(m.header.slabID) && id != old(m.childrenHeaders)[li].slabID && id != old(m.childrenHeaders)[ri].slabID ==> sto[id] == old(sto[id])
+//@   modifies m.childrenHeaders, m.header, ghost.sto, ghost.stored, ghost.touched, alloc,
+//@        as(l, *MapDataSlab).elements, as(l, *MapDataSlab).header, as(r, *MapDataSlab).elements, as(r, *MapDataSlab).header, hkeyElements.*@inSub(l), hkeyElements.*@inSub(r),
+//@        as(l, *MapMetaDataSlab).childrenHeaders, as(l, *MapMetaDataSlab).header, as(r, *MapMetaDataSlab).childrenHeaders, as(r, *MapMetaDataSlab).header
